@@ -10,7 +10,7 @@ from facts import walk, callee_is, src, loc, peel, is_local
 
 
 def check(run):
-    add_rules(run, ['ACC.pair', 'ACC.guard', 'ACC.order', 'ACC.nocapture', 'GATE.form',
+    add_rules(run, ['ACC.pair', 'ACC.guard', 'ACC.order', 'ACC.exit', 'ACC.nocapture', 'GATE.form',
                     'GATE.dom', 'GATE.intrinsic'])
     run.rule('RESID.range', 'the residual statistics are recomputed over exactly the window '
              '`start.unwrap_or(0)..=end` with a pairwise null skip on both series')
